@@ -486,12 +486,11 @@ def reProp (l : ReLine) (impl : String) : String :=
     | none => "fail:answer"
     | some r => reJudge l r
 
-/-- classes of DECODER OUTPUT (evaluated on what the MODEL decodes from the bytes of the line): the three classes
-`C01_e2e_reencode` excludes -/
+/-- classes of DECODER OUTPUT (evaluated on what the MODEL decodes from the bytes of the line): the two classes
+`C01_e2e_reencode` excludes (a third, KF-C01-undersized, is repaired in /repo) -/
 def reKf (l : ReLine) : String :=
   let (fits, _) := decodeChain l.o l.bytes
-  let ids := (if fits.any (fun f => kfUndersized f.msgs) then ["KF-C01-undersized"] else []) ++
-    (if fits.any (fun f => kfPieces f.msgs) then ["KF-C01-strpieces"] else []) ++
+  let ids := (if fits.any (fun f => kfPieces f.msgs) then ["KF-C01-strpieces"] else []) ++
     (if fits.any (fun f => kfF64Dev l.c.vo {} f.msgs) then ["KF-C01-f64dev"] else [])
   if ids.isEmpty then "-" else ",".intercalate ids
 
